@@ -484,11 +484,6 @@ def mk_transformation(u, scaled=None, fmt="coo", mbound=M_BOUND):
 TR_FUNCS = [TR + "__init__", TR + "transform_sol", TR + "restore_sol", TR + "scaled_problem", TR + "trans_problem", TR + "create_transformed_iterate", SC + "create_scaling"]
 
 
-@unit("C04.Transformation.sol[bounded m<=2]", ["C04", "C01", "C05", "C11", "C12"], TR_FUNCS, config={"max_paths": 1500})
-def transformation_sol_quick(u):
-    transformation_sol(u, 2)
-
-
 @unit("C04.Transformation.sol[bounded m<=3]", ["C04", "C01", "C05", "C11", "C12"], TR_FUNCS, config={"max_paths": 1500}, tier="thorough")
 def transformation_sol_thorough(u):
     transformation_sol(u, 3)
